@@ -5,7 +5,7 @@
     (Gen/StreamConsts.v, Gen/HelloConsts.v). *)
 From Coq Require Import List NArith Bool.
 From Verif Require Import Lib.Bytes Sni.Wire Sni.Hello Sni.HelloProofs Sni.Stream Sni.StreamProofs
-  Sni.StreamClose Sni.ReadBuf Sni.ReadBufProofs Sni.SideRead Sni.SideReadProofs Sni.StreamGen Gen.StreamConsts Gen.HelloConsts Gen.WireSchema Sni.WireGen.
+  Sni.StreamClose Sni.ReadBuf Sni.ReadBufProofs Sni.ReadHold Sni.ReadHoldProofs Sni.SideRead Sni.SideReadProofs Sni.StreamGen Gen.StreamConsts Gen.HelloConsts Gen.WireSchema Sni.WireGen.
 Import ListNotations.
 Local Open Scope N_scope.
 
@@ -313,17 +313,44 @@ Theorem C01_pooled_read_buffer_refuted :
 Proof. exact put_before_encode_crossed. Qed.
 Print Assumptions C01_pooled_read_buffer_refuted.
 
+(** ** Idle sessions do not starve an active one (multiplexed tunnel)
+
+    Every open session keeps one read call outstanding, blocked in conn.Read
+    while its application is silent.  The handlers of the current source hold
+    nothing shared across that blocking call ([gen_read_held] = [], emitted
+    from handleRead / handleWrite), so with ANY number of silent sessions a
+    session whose application has written is answered by its own two steps. *)
+Theorem C01_idle_sessions_never_starve_a_read : forall st i pc,
+  hold_of gen_read_held = HoldNone /\
+  (nth_error st i = Some (mkHS pc true) -> pc <= 1 ->
+   exists st', (st' = hstep HoldNone st i \/ st' = hstep HoldNone (hstep HoldNone st i) i) /\
+               nth_error st' i = Some (mkHS 2 true))%nat.
+Proof. exact (fun st i pc => conj (proj1 gen_read_hold_none) (read_with_data_completes st i pc)). Qed.
+Print Assumptions C01_idle_sessions_never_starve_a_read.
+
+(** A bounded semaphore held across the blocking read (seeded change C01-h):
+    refuted - [cap] silent sessions and one with data: no handler can move,
+    the written bytes never leave although everything stays open; with one
+    slot more the active session starts. *)
+Theorem C01_idle_sessions_never_starve_a_read_refuted : forall cap i,
+  (h_enabled (HoldSem cap) (starved cap) i = false /\
+   nth_error (starved cap) cap = Some (mkHS 0 true)) /\
+  h_enabled (HoldSem (S cap)) (repeat (mkHS 1 false) cap ++ [mkHS 0 true]) cap = true.
+Proof. exact (fun cap i => conj (semaphore_starves cap i) (one_slot_free cap)). Qed.
+Print Assumptions C01_idle_sessions_never_starve_a_read_refuted.
+
 (** ** The code the models were written against is the code in the tree *)
 Theorem C01_source_tie :
   0 < gen_side_chunk /\ gen_side_chunk <= gen_ws_write_buf /\
   copy_buf <= StreamConsts.gen_max_read_size /\ 5 <= gen_hello_buf_size /\
   gen_close_policy = CloseBoth /\
   rb_ownedb gen_read_buf = true /\
+  (holds_nothingb gen_read_held = true /\ holds_nothingb gen_write_held = true) /\
   StreamGen.src_diff gen_stream_src frozen_stream_src = [].
 Proof.
   exact (conj gen_side_chunk_pos (conj gen_side_chunk_fits (conj gen_copy_fits_read_cap
           (conj gen_hello_cap_ge5 (conj gen_close_policy_both
-            (conj gen_read_buf_owned gen_stream_src_frozen)))))).
+            (conj gen_read_buf_owned (conj gen_read_holds_nothing_shared gen_stream_src_frozen))))))).
 Qed.
 Print Assumptions C01_source_tie.
 
@@ -340,6 +367,16 @@ Example C01_nonvacuous_fragments :
   outs = [[1; 2]; [3]; [4; 5; 6]; [7]; [8]; [9]; []] /\ e = RErrS /\
   fst (fst (fst (side_read_f 4096 [] s'))) = [] /\ snd (fst (fst (side_read_f 4096 [] s'))) = RErrS /\
   owed_f (mkR None script) = [1; 2; 3; 4; 5; 6; 7; 8; 9].
+Proof. vm_compute. repeat split. Qed.
+
+(** 64 silent sessions and a 65th with data: under the emitted policy the
+    65th completes in two steps; under a 64-slot semaphore it cannot start;
+    with 63 silent ones it can. *)
+Example C01_nonvacuous_idle :
+  let st := starved 64 in
+  nth_error (hstep (hold_of gen_read_held) (hstep (hold_of gen_read_held) st 64) 64) 64 = Some (mkHS 2 true) /\
+  h_enabled (HoldSem 64) st 64 = false /\
+  h_enabled (HoldSem 64) (starved 63) 63 = true.
 Proof. vm_compute. repeat split. Qed.
 
 (** Three read calls in flight with a fresh buffer each, steps interleaved:
